@@ -10,7 +10,9 @@
 (*            "error"   the exception (stage, kind)                         *)
 (* Snapshots are sparse: options not listed hold their default.             *)
 (* Judged here (property level, nothing else):                              *)
-(*   loaded : Precedence for every option of the table                      *)
+(*   loaded : Precedence for every option of the table (`conf` included:    *)
+(*            the trace carries the --conf occurrence the driver put on the  *)
+(*            command line; texts are taken as written, see LiteralWords)    *)
 (*   final  : OfflineConsistent, OutputConsistent, ObfuscationConsistent,   *)
 (*            RejectedNotResolved (no listed conflict among the loaded      *)
 (*            values), UnknownIgnored                                       *)
@@ -58,13 +60,18 @@ ObservedFrom(n, v) ==
     ELSE IF n \in DOMAIN FileLayer(lay) /\ FileLayer(lay)[n] = v THEN "file"
     ELSE IF v = Default(n) THEN "default" ELSE "other:" \o v.t
 Pick1(Sx) == CHOOSE x \in Sx : TRUE
+(* the sources whose raw texts hold one of LiteralWords ("" if none): a feature of the failing case *)
+LiteralIn == (IF \E r \in lay.file : r.text \in LiteralWords THEN "f" ELSE "") \o
+             (IF \E r \in lay.env : r.text \in LiteralWords THEN "e" ELSE "") \o
+             (IF \E r \in lay.cli : r.arg \in LiteralWords THEN "c" ELSE "")
 Diagnose(Obs) ==
     CASE Ev.ev = "loaded" ->
            (LET L == Layers(lay)
                 n == Pick1({m \in OptNames : Obs[m] # ResolveIn(L, m)}) IN
             "Precedence:type=" \o TypeOf(n) \o ":cli=" \o CliKind(n) \o ":given-in=" \o RawSources(n) \o
             ":file=" \o (IF FileUsable(lay) THEN "used" ELSE "dropped") \o
-            ":expected-from=" \o Source(lay, n) \o ":observed-from=" \o ObservedFrom(n, Obs[n]))
+            ":expected-from=" \o Source(lay, n) \o ":observed-from=" \o ObservedFrom(n, Obs[n]) \o
+            (IF LiteralIn = "" THEN "" ELSE ":literal-text-in=" \o LiteralIn))
       [] Ev.ev = "final" ->
            IF ~OfflineConsistent(Obs) THEN "OfflineConsistent:offline+" \o Pick1(OfflineBreaks(Obs))
            ELSE IF ~OutputConsistent(Obs) THEN
